@@ -777,7 +777,14 @@ pub async fn acquire_key(base_url: &Uri) -> Result<Key> {
             response.status(),
         )));
     }
-    hyper_client::read_response_body(response).await
+    // the response body carries the key value: never let it into an error text,
+    // as callers write the error to the status message and the log files
+    hyper_client::read_response_body(response).await.map_err(|_| {
+        Error::Hyper(crate::common::error::HyperErrorType::Deserialize(format!(
+            "Failed to deserialize the {} key response body (content omitted)",
+            KeyAction::Acquire
+        )))
+    })
 }
 
 pub async fn attest_key(base_url: &Uri, key: &Key) -> Result<()> {
